@@ -436,6 +436,8 @@ def run(ctx):
         ctx.corr('dofs', 'Require Import Model.C04_Dofs Gen.C04Gen.\nFrom Coq Require Import List Arith Bool.',
                  'run', 'natsss_eqb', cases, per_file=min(400, -(-len(cases) // 4)), defs=CORR_DEFS, nontrivial=lambda r: r[5])
     _oracle_basis(ctx, rng)
+    _oracle_operand(ctx, rng)
+    _oracle_periodic(ctx, rng, cases_out=None)
 
 
 def on_slot(refdom, elem):
@@ -589,10 +591,87 @@ def _oracle_basis(ctx, rng):
     ctx.extra['max_relative_dofloc_deviation'] = maxdev
 
 
+def _snapshot(m, elem):
+    from skfem.assembly import Basis
+    b = Basis(m, elem, intorder=2)
+    return (np.asarray(m.t).copy(), np.asarray(m.p).copy(), np.asarray(b.element_dofs).copy(), np.asarray(b.doflocs).copy(), int(b.N))
+
+
+def _oracle_operand(ctx, rng):
+    """meshes derived from m (oriented, refined, translated, tagged, ...) must leave m untouched: the cell table of m, and the
+    tables of a NEW Dofs/Basis built on m afterwards, are what they were before"""
+    import skfem.element as E
+    ops = [('oriented', lambda m: m.oriented()), ('refined', lambda m: m.refined()), ('translated', lambda m: m.translated(tuple([1.0] * m.p.shape[0]))),
+           ('scaled', lambda m: m.scaled(2.0)), ('with_boundaries', lambda m: m.with_boundaries({'x': lambda x: x[0] < 0.5})),
+           ('with_subdomains', lambda m: m.with_subdomains({'s': lambda x: x[0] < 0.5})), ('mirrored', lambda m: m.mirrored((1.0,) + (0.0,) * (m.p.shape[0] - 1))),
+           ('restrict', lambda m: m.restrict(np.array([0], dtype=np.int32))), ('remove_unused_nodes', lambda m: m.remove_unused_nodes()),
+           ('to_dict', lambda m: m.to_dict()), ('dofs', lambda m: m.dofs)]
+    el = {'line': E.ElementLineP2, 'tri': E.ElementTriP2, 'quad': E.ElementQuad2, 'tet': E.ElementTetP2, 'hex': E.ElementHex2, 'wedge': E.ElementWedge1}
+    for kind in M.KINDS:
+        for rep in range(ctx.n(1, 3)):
+            p, t, info = M.gen_raw(rng, kind, maxcells=8)
+            for opname, op in ops:
+                m = M.build(kind, p.copy(), t.copy())
+                try:
+                    before = _snapshot(m, el[kind]())
+                    m.facets, m.t2f, m.f2t      # caches filled, as in a session that already used the mesh
+                    op(m)
+                except (NotImplementedError, AttributeError, TypeError, ValueError):
+                    continue                   # operation not offered for this mesh type
+                after = _snapshot(m, el[kind]())
+                ctx.count(('operand', kind, opname, t.tolist()), nontrivial=True)
+                what = [n for n, a, c in zip(('t', 'p', 'element_dofs', 'doflocs', 'N'), before, after) if not np.array_equal(a, c)]
+                if what:
+                    ctx.fail(f'operand:{opname}', f'{type(m).__name__}.{opname}() changed the mesh it was called on: {what} of the ORIGINAL mesh / of a new '
+                             f'Basis on it differ from before the call (first changed cell columns: '
+                             f'{np.nonzero((before[0] != after[0]).any(axis=0))[0][:5].tolist()})',
+                             {'kind': kind, 'p': p.tolist(), 't': t.tolist(), 'operation': opname, 'element': el[kind].__name__})
+
+
+def _oracle_periodic(ctx, rng, cases_out=None):
+    """tensor meshes periodic in 1, 2 and all coordinate directions (MeshLine1DG / Tri1DG / Quad1DG / Hex1DG): the numbering is
+    gap-free, none unused, shared exactly along identified entities; N of a vertex-only element = number of identified node classes"""
+    import itertools
+    import skfem
+    import skfem.element as E
+    from skfem.assembly import Basis
+    fam = [(skfem.MeshLine1DG, 1, [E.ElementLineP1, E.ElementLineP2]), (skfem.MeshTri1DG, 2, [E.ElementTriP1, E.ElementTriP2]),
+           (skfem.MeshQuad1DG, 2, [E.ElementQuad1, E.ElementQuad2]), (skfem.MeshHex1DG, 3, [E.ElementHex1, E.ElementHex2])]
+    for cls, d, elems in fam:
+        for k in range(1, d + 1):
+            for per in itertools.combinations(range(d), k):
+                npts = [int(rng.integers(3, 5)) for _ in range(d)]
+                grids = [np.linspace(0, 1, n) for n in npts]
+                try:
+                    m = cls.init_tensor(*grids, periodic=list(per))
+                except Exception as ex:
+                    ctx.fail(f'periodic:{cls.__name__}:exception', f'{cls.__name__}.init_tensor(periodic={list(per)}) raises {type(ex).__name__}: {ex}',
+                             {'class': cls.__name__, 'npts': npts, 'periodic': list(per)})
+                    continue
+                classes = int(np.prod([n - 1 if a in per else n for a, n in enumerate(npts)]))
+                for ec in elems:
+                    elem = ec()
+                    b = Basis(m, elem, intorder=2)
+                    ctx.count(('periodic', cls.__name__, per, tuple(npts), ec.__name__), nontrivial=True)
+                    bad = oracle_dofs(m, elem, b.dofs)
+                    if not bad and int(elem.edge_dofs) + int(elem.facet_dofs) + int(elem.interior_dofs) == 0 and b.N != classes * int(elem.nodal_dofs):
+                        bad = [f'N = {b.N} but the {npts} grid periodic in {list(per)} has {classes} classes of identified nodes']
+                    if not bad and int(m.nvertices) != classes:
+                        bad = [f'the mesh has {int(m.nvertices)} vertex numbers but {classes} classes of identified nodes']
+                    for msg in bad:
+                        ctx.fail(f'periodic:{cls.__name__}:numbering', f'Basis({cls.__name__}.init_tensor({npts}, periodic={list(per)}), {ec.__name__}): {msg}',
+                                 {'class': cls.__name__, 'npts': npts, 'periodic': list(per), 'element': ec.__name__})
+
+
 def replay(ctx, data):
     from .. import c04_elems as EL
     from skfem.assembly import Dofs, Basis
     inp = data['input']
+    if data['key'].startswith('operand:') or data['key'].startswith('periodic:'):
+        rng = np_seed(ctx, 4)
+        _oracle_operand(ctx, rng)
+        _oracle_periodic(ctx, rng)
+        return
     if 'element' not in inp or 'kind' not in inp:
         return run(ctx)
     fac = dict(EL.all_elements(inp['kind']))[inp['element']]
